@@ -91,6 +91,76 @@ Proof.
   destruct ((m =? 4) || (m =? 6) || (m =? 9) || (m =? 11))%bool; lia.
 Qed.
 
+(** *** a space of the layout: [time.skip] *)
+
+Lemma drop_spaces_cons c s : drop_spaces (c :: s) = if (c =? 32)%N then drop_spaces s else c :: s.
+Proof. destruct c as [|p]; [reflexivity|]. do 6 (try (destruct p as [p|p|]; try reflexivity)). Qed.
+
+Lemma drop_space_lits_lit c r :
+  drop_space_lits (Lit c :: r) = if (c =? 32)%N then drop_space_lits r else Lit c :: r.
+Proof. destruct c as [|p]; [reflexivity|]. do 6 (try (destruct p as [p|p|]; try reflexivity)). Qed.
+
+(** a [Lit 32] of the layout matches a run of spaces of the value together with the
+    [Lit 32]s that follow it, also the empty run at the end of the value *)
+Lemma parse_tokens_space_run r s y m d :
+  parse_tokens (Lit 32 :: r) (32%N :: s) y m d = parse_tokens (drop_space_lits r) (drop_spaces s) y m d.
+Proof. reflexivity. Qed.
+
+Lemma parse_tokens_space_end r y m d :
+  parse_tokens (Lit 32 :: r) [] y m d = parse_tokens (drop_space_lits r) [] y m d.
+Proof. reflexivity. Qed.
+
+Lemma parse_tokens_space_eq r s y m d :
+  parse_tokens (Lit 32 :: r) s y m d
+  = match s with
+    | [] => parse_tokens (drop_space_lits r) [] y m d
+    | c' :: _ => if (c' =? 32)%N then parse_tokens (drop_space_lits r) (drop_spaces s) y m d else None
+    end.
+Proof. reflexivity. Qed.
+
+Lemma parse_tokens_lit c r s y m d : c <> 32%N ->
+  parse_tokens (Lit c :: r) s y m d
+  = match s with c' :: s' => if (c =? c')%N then parse_tokens r s' y m d else None | [] => None end.
+Proof. intros Hc. cbn [parse_tokens]. destruct (N.eqb_spec c 32); [contradiction|reflexivity]. Qed.
+
+Lemma drop_space_lits_cases r : drop_space_lits r = r \/ exists r', r = Lit 32 :: r'.
+Proof.
+  destruct r as [|[| | |c] r']; try (left; reflexivity).
+  destruct (N.eqb_spec c 32) as [->|Hc]; [right; eexists; reflexivity|left].
+  rewrite drop_space_lits_lit. destruct (N.eqb_spec c 32); [contradiction|reflexivity].
+Qed.
+
+Lemma drop_spaces_split s : exists pre, s = pre ++ drop_spaces s /\ Forall (fun c => c = 32%N) pre.
+Proof.
+  induction s as [|c s [pre [E F]]]; [exists []; split; [reflexivity|constructor]|].
+  rewrite drop_spaces_cons. destruct (N.eqb_spec c 32) as [->|Hc].
+  - exists (32%N :: pre). split; [cbn [app]; f_equal; exact E|constructor; [reflexivity|exact F]].
+  - exists []. split; [reflexivity|constructor].
+Qed.
+
+(** a successful parse under [Lit 32 :: r] is a successful parse under [r] of the value without some
+    of its leading spaces: what lets the proofs about successful parses go by induction on the layout *)
+Lemma parse_tokens_space_step r s y m d res :
+  parse_tokens (Lit 32 :: r) s y m d = Some res ->
+  exists pre s', s = pre ++ s' /\ Forall (fun c => c = 32%N) pre /\ parse_tokens r s' y m d = Some res.
+Proof.
+  intros H. rewrite parse_tokens_space_eq in H. destruct (drop_space_lits_cases r) as [E|[r' E]].
+  - rewrite E in H. destruct s as [|c s0].
+    + exists [], []. split; [reflexivity|split; [constructor|exact H]].
+    + destruct (c =? 32)%N; [|discriminate].
+      destruct (drop_spaces_split (c :: s0)) as [pre [E1 F1]].
+      exists pre, (drop_spaces (c :: s0)). split; [exact E1|split; [exact F1|exact H]].
+  - subst r. exists [], s. split; [reflexivity|split; [constructor|]].
+    rewrite parse_tokens_space_eq. exact H.
+Qed.
+
+Lemma drop_spaces_digits ds rest : forallb is_digit ds = true -> ds <> [] -> drop_spaces (ds ++ rest) = ds ++ rest.
+Proof.
+  destruct ds as [|c ds]; [congruence|]. intros H _. cbn [forallb] in H. apply andb_true_iff in H.
+  destruct H as [Hc _]. cbn [app]. rewrite drop_spaces_cons. unfold is_digit in Hc.
+  destruct (N.eqb_spec c 32); [lia|reflexivity].
+Qed.
+
 (** *** [parse_date] after [format_date] *)
 
 Definition has_tok (t : ltoken) (l : list ltoken) : bool :=
@@ -123,7 +193,18 @@ Proof.
     rewrite (take_digits_app _ _ _ _ _ _ H1). cbn [app].
     replace ((0 <=? d) && (d <=? 31))%bool with true by lia. rewrite IH. cbn.
     destruct (has_tok D2 toks); reflexivity.
-  - cbn [parse_tokens app]. rewrite N.eqb_refl. rewrite IH. reflexivity.
+  - destruct (N.eqb_spec c 32) as [->|Hc].
+    + (* the text after the run of space literals does not start with a space *)
+      cbn [app]. rewrite parse_tokens_space_run. rewrite <- IH.
+      destruct toks as [|t toks']; [reflexivity|]. cbn [map concat].
+      assert (Hlen : forall (ds : bytes) n, length ds = S n -> ds <> []) by (intros ds n H E; subst ds; discriminate).
+      destruct t as [| | |c'].
+      * destruct (fmt4_spec y Hy) as [_ [H2 H3]]. rewrite drop_spaces_digits; [reflexivity|exact H2|eapply Hlen, H3].
+      * destruct (fmt2_spec m ltac:(lia)) as [_ [H2 H3]]. rewrite drop_spaces_digits; [reflexivity|exact H2|eapply Hlen, H3].
+      * destruct (fmt2_spec d ltac:(lia)) as [_ [H2 H3]]. rewrite drop_spaces_digits; [reflexivity|exact H2|eapply Hlen, H3].
+      * cbn [app]. rewrite drop_space_lits_lit, drop_spaces_cons.
+        destruct (N.eqb_spec c' 32) as [->|Hc']; reflexivity.
+    + rewrite parse_tokens_lit by exact Hc. cbn [app]. rewrite N.eqb_refl. rewrite IH. reflexivity.
 Qed.
 
 (** the general form: any layout, a date the layout can express *)
@@ -180,8 +261,11 @@ Proof.
       change (has_tok D2 (D2 :: toks)) with true. change (has_tok Y4 (D2 :: toks)) with (has_tok Y4 toks).
       change (has_tok M2 (D2 :: toks)) with (has_tok M2 toks).
       split; [exact H1|]. split; [exact H2|exact I].
-    + destruct s as [|c' s']; [discriminate|]. destruct (c =? c')%N; [|discriminate].
-      apply IH in H. exact H.
+    + revert H. destruct (N.eqb_spec c 32) as [->|Hc]; intros H.
+      * apply parse_tokens_space_step in H. destruct H as [pre [s' [_ [_ H]]]].
+        apply IH in H. exact H.
+      * destruct s as [|c' s']; [discriminate|]. destruct (c =? c')%N; [|discriminate].
+        apply IH in H. exact H.
 Qed.
 
 Lemma parse_date_fits toks s cv : parse_date toks s = Some cv -> civil_fits toks cv.
@@ -198,6 +282,34 @@ Proof.
   unfold civil_fits, valid_civil.
   destruct (has_tok Y4 toks), (has_tok M2 toks), (has_tok D2 toks); repeat split; try lia;
     intros N; (try (specialize (NY N))); (try (specialize (NM N))); (try (specialize (ND N))); congruence.
+Qed.
+
+(** *** spaces: the behaviour of [time.skip], stated *)
+Example parse_space_run_ex : parse_date [D2; Lit 32; M2] (b "05   07") = Some (0, 7, 5).
+Proof. vm_compute. reflexivity. Qed.
+Example parse_space_lits_ex : parse_date [D2; Lit 32; Lit 32; Lit 32; M2] (b "05 07") = Some (0, 7, 5).
+Proof. vm_compute. reflexivity. Qed.
+Example parse_space_none_ex : parse_date [D2; Lit 32; M2] (b "0507") = None.
+Proof. vm_compute. reflexivity. Qed.
+Example parse_space_end_ex :
+  tokenize (b "02/01//2006 ") = Some [D2; Lit 47; M2; Lit 47; Lit 47; Y4; Lit 32]
+  /\ parse_date [D2; Lit 47; M2; Lit 47; Lit 47; Y4; Lit 32] (b "06/10//2021") = Some (2021, 10, 6)
+  /\ parse_date [D2; Lit 47; M2; Lit 47; Lit 47; Y4; Lit 32] (b "06/10//2021   ") = Some (2021, 10, 6).
+Proof. vm_compute. repeat split. Qed.
+
+(** a [Lit 32] matches a run of spaces (and the space literals after it are consumed with it); at the
+    end of the value it matches the empty run; it does not match the empty run elsewhere *)
+Theorem parse_date_space_runs :
+  (forall r s y m d,
+     parse_tokens (Lit 32 :: r) (32%N :: s) y m d = parse_tokens (drop_space_lits r) (drop_spaces s) y m d)
+  /\ (forall r y m d, parse_tokens (Lit 32 :: r) [] y m d = parse_tokens (drop_space_lits r) [] y m d)
+  /\ (forall r c s y m d, c <> 32%N -> parse_tokens (Lit 32 :: r) (c :: s) y m d = None)
+  /\ parse_date [D2; Lit 32; M2] (b "05   07") = Some (0, 7, 5)
+  /\ parse_date [D2; Lit 47; M2; Lit 47; Lit 47; Y4; Lit 32] (b "06/10//2021") = Some (2021, 10, 6).
+Proof.
+  split; [exact parse_tokens_space_run|]. split; [exact parse_tokens_space_end|]. split.
+  - intros r c s y m d Hc. rewrite parse_tokens_space_eq. destruct (N.eqb_spec c 32); [contradiction|reflexivity].
+  - split; [exact parse_space_run_ex|exact (proj1 (proj2 parse_space_end_ex))].
 Qed.
 
 (** *** the bytes of a formatted date *)
@@ -318,4 +430,153 @@ Lemma heading_no_lf fd : forallb date_byte fd = true -> memb c_lf fd = false.
 Proof.
   intros H. apply memb_false_In. intros HI. rewrite forallb_forall in H. apply H in HI.
   unfold date_byte, is_digit, safe_literal, c_lf in HI. lia.
+Qed.
+
+(** *** the layout without the spaces at its end ([layout_core]) *)
+
+Lemma drop_space_lits_split l : exists sp, l = sp ++ drop_space_lits l /\ Forall (fun t => t = Lit 32) sp.
+Proof.
+  induction l as [|t l [sp [E F]]]; [exists []; split; [reflexivity|constructor]|].
+  destruct t as [| | |c]; try (exists []; split; [reflexivity|constructor]).
+  rewrite drop_space_lits_lit. destruct (N.eqb_spec c 32) as [->|Hc].
+  - exists (Lit 32 :: sp). split; [cbn [app]; f_equal; exact E|constructor; [reflexivity|exact F]].
+  - exists []. split; [reflexivity|constructor].
+Qed.
+
+Lemma drop_space_lits_head l c r : drop_space_lits l = Lit c :: r -> c <> 32.
+Proof.
+  induction l as [|t l IH]; [discriminate|]. destruct t as [| | |c']; [cbn; discriminate..|].
+  rewrite drop_space_lits_lit. destruct (N.eqb_spec c' 32) as [->|Hc]; [exact IH|].
+  intros H. injection H as -> _. exact Hc.
+Qed.
+
+Lemma drop_space_lits_length l : (length (drop_space_lits l) <= length l)%nat.
+Proof.
+  destruct (drop_space_lits_split l) as [sp [E _]]. apply (f_equal (@length _)) in E.
+  rewrite app_length in E. lia.
+Qed.
+
+Lemma drop_space_lits_spaces sp : Forall (fun t => t = Lit 32) sp -> drop_space_lits sp = [].
+Proof. induction 1 as [|t sp -> _ IH]; [reflexivity|exact IH]. Qed.
+
+Lemma drop_space_lits_app l sp : Forall (fun t => t = Lit 32) sp ->
+  drop_space_lits (l ++ sp) = match drop_space_lits l with [] => [] | _ => drop_space_lits l ++ sp end.
+Proof.
+  intros F. induction l as [|t l IH]; [cbn [app]; rewrite (drop_space_lits_spaces _ F); reflexivity|].
+  destruct t as [| | |c]; try reflexivity. cbn [app]. rewrite !drop_space_lits_lit.
+  destruct (N.eqb_spec c 32); [exact IH|reflexivity].
+Qed.
+
+Lemma layout_core_split toks : exists sp, toks = layout_core toks ++ sp /\ Forall (fun t => t = Lit 32) sp.
+Proof.
+  unfold layout_core. destruct (drop_space_lits_split (rev toks)) as [sp [E F]].
+  exists (rev sp). split.
+  - rewrite <- rev_app_distr. rewrite <- E. symmetry. apply rev_involutive.
+  - apply Forall_rev. exact F.
+Qed.
+
+(** the last token of the core is not a space *)
+Lemma layout_core_last toks l c : layout_core toks = l ++ [Lit c] -> c <> 32.
+Proof.
+  unfold layout_core. intros H. apply (f_equal (@rev _)) in H. rewrite rev_involutive, rev_app_distr in H.
+  cbn [rev app] in H. apply drop_space_lits_head in H. exact H.
+Qed.
+
+(** a heading layout is its own core *)
+Lemma layout_core_heading toks : heading_layout toks = true -> layout_core toks = toks.
+Proof.
+  unfold heading_layout, layout_core. intros H. apply andb_true_iff in H. destruct H as [_ H].
+  destruct (rev toks) as [|t r] eqn:E; [discriminate|].
+  assert (Hd : drop_space_lits (t :: r) = t :: r).
+  { destruct t as [| | |c]; try reflexivity. rewrite drop_space_lits_lit.
+    destruct (N.eqb_spec c 32) as [->|]; [vm_compute in H; discriminate|reflexivity]. }
+  rewrite Hd, <- E. apply rev_involutive.
+Qed.
+
+Lemma In_layout_core t toks : t <> Lit 32 -> (In t (layout_core toks) <-> In t toks).
+Proof.
+  intros Ht. destruct (layout_core_split toks) as [sp [E F]]. set (core := layout_core toks) in *.
+  rewrite E. rewrite in_app_iff. split; [tauto|].
+  intros [H|H]; [exact H|]. rewrite Forall_forall in F. apply F in H. contradiction.
+Qed.
+
+Lemma civil_fits_core toks cv : civil_fits toks cv -> civil_fits (layout_core toks) cv.
+Proof.
+  destruct cv as [[y m] d]. intros [Hv [Fy [Fm Fd]]]. split; [exact Hv|].
+  repeat split; intros H; [apply Fy|apply Fm|apply Fd]; intros HI; apply H; apply In_layout_core;
+    first [discriminate|exact HI].
+Qed.
+
+(** space literals at the end of the layout do not spoil a successful parse *)
+Lemma parse_tokens_spaces_nil sp y m d : Forall (fun t => t = Lit 32) sp ->
+  parse_tokens sp [] y m d = Some (y, m, d).
+Proof.
+  intros F. destruct F as [|t sp -> F]; [reflexivity|].
+  rewrite parse_tokens_space_end. rewrite (drop_space_lits_spaces _ F). reflexivity.
+Qed.
+
+Lemma parse_tokens_app_spaces sp : Forall (fun t => t = Lit 32) sp ->
+  forall l s y m d res, parse_tokens l s y m d = Some res -> parse_tokens (l ++ sp) s y m d = Some res.
+Proof.
+  intros F.
+  assert (Hnil : forall s y m d res, parse_tokens [] s y m d = Some res -> parse_tokens sp s y m d = Some res).
+  { intros s y m d res H. cbn in H. destruct s; [|discriminate]. injection H as <-. apply parse_tokens_spaces_nil, F. }
+  assert (G : forall n l, (length l <= n)%nat -> forall s y m d res,
+                parse_tokens l s y m d = Some res -> parse_tokens (l ++ sp) s y m d = Some res).
+  { induction n as [|n IH]; intros l Hn s y m d res H.
+    - destruct l; [|cbn in Hn; lia]. apply Hnil, H.
+    - destruct l as [|t l]; [apply Hnil, H|]. cbn [length] in Hn.
+      assert (Hl : (length l <= n)%nat) by lia. cbn [app].
+      destruct t as [| | |c].
+      + cbn [parse_tokens] in *. destruct (take_digits 4 s 0) as [[v s']|]; [|discriminate]. apply IH; assumption.
+      + cbn [parse_tokens] in *. destruct (take_digits 2 s 0) as [[v s']|]; [|discriminate].
+        destruct (_ && _)%bool; [|discriminate]. apply IH; assumption.
+      + cbn [parse_tokens] in *. destruct (take_digits 2 s 0) as [[v s']|]; [|discriminate].
+        destruct (_ && _)%bool; [|discriminate]. apply IH; assumption.
+      + destruct (N.eqb_spec c 32) as [->|Hc].
+        * rewrite parse_tokens_space_eq in *. rewrite (drop_space_lits_app l sp F).
+          pose proof (drop_space_lits_length l) as Hlen.
+          assert (X : forall s0, parse_tokens (drop_space_lits l) s0 y m d = Some res ->
+                                 parse_tokens (match drop_space_lits l with [] => [] | _ => drop_space_lits l ++ sp end)
+                                   s0 y m d = Some res).
+          { intros s0 H0. destruct (drop_space_lits l) as [|t0 l0] eqn:El; [exact H0|].
+            apply IH; [lia|exact H0]. }
+          destruct s as [|c' s0]; [apply X, H|]. destruct (c' =? 32); [apply X, H|discriminate].
+        * rewrite parse_tokens_lit in * by exact Hc. destruct s as [|c' s0]; [discriminate|].
+          destruct (c =? c'); [|discriminate]. apply IH; assumption. }
+  intros l. apply (G (length l) l). lia.
+Qed.
+
+(** the date formatted without the spaces at the end of the layout is read under the layout *)
+Lemma format_parse_date_core toks cv :
+  civil_fits toks cv -> parse_date toks (format_date (layout_core toks) cv) = Some cv.
+Proof.
+  intros Hfit. pose proof (format_parse_date_fits _ _ (civil_fits_core _ _ Hfit)) as H.
+  destruct (layout_core_split toks) as [sp [E F]]. set (core := layout_core toks) in *.
+  unfold parse_date in *.
+  destruct (parse_tokens core (format_date core cv) 0 1 1) as [r|] eqn:Ep; [|discriminate].
+  rewrite E. rewrite (parse_tokens_app_spaces sp F _ _ _ _ _ _ Ep). exact H.
+Qed.
+
+Lemma format_date_app l1 l2 cv : format_date (l1 ++ l2) cv = format_date l1 cv ++ format_date l2 cv.
+Proof. rewrite !format_date_concat. rewrite map_app, concat_app. reflexivity. Qed.
+
+(** what [format_date] writes for the spaces at the end of the layout is in the parser's trim set *)
+Lemma format_date_core toks cv :
+  exists post, format_date toks cv = format_date (layout_core toks) cv ++ post /\ all_in trim_text post = true.
+Proof.
+  destruct (layout_core_split toks) as [sp [E F]]. set (core := layout_core toks) in *.
+  exists (format_date sp cv). split; [rewrite E at 1; apply format_date_app|].
+  rewrite format_date_concat. clear E. induction F as [|t sp -> _ IH]; [reflexivity|].
+  cbn [map concat]. destruct cv as [[y m] d]. cbn [tok_bytes]. rewrite all_in_app. rewrite IH. reflexivity.
+Qed.
+
+(** the bytes of a date formatted under a safe layout *)
+Lemma format_date_bytes toks cv :
+  forallb safe_tok toks = true -> civil_fits toks cv -> forallb date_byte (format_date toks cv) = true.
+Proof.
+  intros Hs Hfit. rewrite format_date_concat. revert Hs. generalize toks at 1 2. intros l.
+  induction l as [|t l IH]; intros Hl; [reflexivity|]. cbn [forallb] in Hl. apply andb_true_iff in Hl.
+  destruct Hl as [Ht Hl]. cbn [map concat]. rewrite forallb_app. rewrite (IH Hl).
+  destruct (tok_bytes_spec toks cv t Hfit Ht) as [Hb _]. rewrite Hb. reflexivity.
 Qed.
